@@ -25,14 +25,19 @@ func loopIndex(idx ssa.Value) (first, step int64, ok bool) {
 		break
 	}
 	ph, isP := v.(*ssa.Phi)
-	if !isP || len(ph.Edges) != 2 {
+	if !isP || len(ph.Edges) < 2 {
 		return 0, 0, false
 	}
 	var init int64
 	haveInit, haveStep := false, false
+	nInit := 0
 	for _, e := range ph.Edges {
 		if c, isC := constInt(e); isC {
+			if haveInit && c != init {
+				return 0, 0, false
+			}
 			init, haveInit = c, true
+			nInit++
 			continue
 		}
 		// e = ph + s
@@ -49,10 +54,15 @@ func loopIndex(idx ssa.Value) (first, step int64, ok bool) {
 			break
 		}
 		if w == ssa.Value(ph) {
+			if haveStep && s != step {
+				return 0, 0, false
+			}
 			step, haveStep = s, true
+		} else {
+			return 0, 0, false
 		}
 	}
-	if !haveInit || !haveStep {
+	if !haveInit || !haveStep || nInit != 1 {
 		return 0, 0, false
 	}
 	return init + k, step, true
